@@ -3,6 +3,7 @@ import Uom.Model.Ops
 import Uom.Model.OpsOracle
 import Uom.Model.Text
 import Uom.Model.Duration
+import Uom.Model.Dim
 import Std.Data.HashMap
 /-!
 # Line protocol: one harness case per line → model recomputation + oracle verdicts
@@ -63,6 +64,10 @@ deriving Inhabited
 structure TextTable where
   units : Std.HashMap String (Array UnitRow) := {}
   dims : Std.HashMap String (List Int) := {}
+  /-- kinds in generated order (name, marker indices) and the `impl_from!` pairs -/
+  kinds : Array (String × List Nat) := #[]
+  implFrom : List (Nat × Nat) := []
+  qkind : Std.HashMap String String := {}
 
 def bytesOfHex? (s : String) : Option Bytes :=
   if !s.startsWith "x" then none
@@ -87,8 +92,12 @@ def TextTable.absorb (t : TextTable) (line : String) : Option TextTable :=
     let row : UnitRow := { name := name, labels := { abbr := ← bytesOfHex? abbr, sing := ← bytesOfHex? sing, plur := ← bytesOfHex? plur },
                            conv := #[c64, a64, s64, c32, a32, s32] }
     some { t with units := t.units.insert m ((t.units.getD m #[]).push row) }
-  | ["quantity", m, _name, _desc, _kind, dims] =>
-    some { t with dims := t.dims.insert m ((dims.splitOn ",").filterMap parseInt?) }
+  | ["quantity", m, _name, _desc, kind, dims] =>
+    some { t with dims := t.dims.insert m ((dims.splitOn ",").filterMap parseInt?), qkind := t.qkind.insert m kind }
+  | ["kind", _i, name, markers] =>
+    some { t with kinds := t.kinds.push (name, (markers.splitOn ",").filterMap String.toNat?) }
+  | ["implfrom", a, b] => do
+    some { t with implFrom := t.implFrom ++ [(← a.toNat?, ← b.toNat?)] }
   | "base" :: _ => some t
   | _ => none
 
@@ -505,6 +514,83 @@ def handleCst (tbl : TextTable) (vt name value module idx back : String) : Optio
            | some w => if Fl.toBits f w = Fl.toBits f b then .ok else .prop "cst.oracle" s!"{name} read in {row.name} is not exact"
            | none => .ok], [s!"cst:{name}"], true⟩
 
+/-! ## C01 / C02: type-level probes -/
+
+def TextTable.kindIdx (t : TextTable) (name : String) : Option Nat := t.kinds.findIdx? (·.1 == name)
+
+def TextTable.env (t : TextTable) : Option TyEnv := do
+  let ttk ← t.kindIdx (← t.qkind.get? "thermodynamic_temperature")
+  let tik ← t.kindIdx (← t.qkind.get? "temperature_interval")
+  return { kinds := t.kinds.toList.map fun (n, ms) => { name := Str.ofString n, markers := ms },
+           implFrom := t.implFrom,
+           tt := ⟨← t.dims.get? "thermodynamic_temperature", ttk⟩, ti := ⟨← t.dims.get? "temperature_interval", tik⟩ }
+
+def parseDims (s : String) : List Int := (s.splitOn ",").filterMap parseInt?
+
+def showQTy (t : TextTable) (q : QTy) : String :=
+  ",".intercalate (q.dim.map toString) ++ " " ++ (match t.kinds[q.kind]? with | some k => k.1 | none => "?")
+
+/-- C01: the dimension and kind the real result type has (read at run time through `to_i32` / `type_name`) -/
+def handleDim (t : TextTable) (form da ka db kb e dres kres : String) : Option LineResult := do
+  let A : QTy := ⟨parseDims da, ← t.kindIdx ka⟩
+  let B : QTy := ⟨parseDims db, ← t.kindIdx kb⟩
+  let ei ← parseInt? e
+  let m : Option QTy := match form with
+    | "mul" => some (outMul A B) | "div" => some (outDiv A B) | "recip" => some (outRecip A)
+    | "powi" => some (outPowi A ei) | "sqrt" => outRoot 2 A | "cbrt" => outRoot 3 A
+    | "mul_add" => some (outMulAdd A B) | "kmul" => some (outScalarLeftMul A) | "kdiv" => some (outScalarLeftDiv A)
+    | "keep" => some (outPreserving A)
+    | _ => none
+  let obs := dres ++ " " ++ kres
+  let mo : Outcome := match m with
+    | some q => if showQTy t q == obs then .ok else .diff s!"dim.{form}.model" s!"model={showQTy t q} impl={obs}"
+    | none => .diff s!"dim.{form}.model" "the model says this program has no result type"
+  -- oracle: dimensional analysis, written independently of the templates
+  let od := parseDims dres
+  let arith (f : Int → Int → Int) : Bool := od == (List.zip A.dim B.dim).map (fun p => f p.1 p.2)
+  let okDim : Bool := match form with
+    | "mul" | "mul_add" => arith (· + ·)
+    | "div" => arith (· - ·)
+    | "recip" | "kdiv" => od == A.dim.map (fun d => -d)
+    | "powi" => od == A.dim.map (fun d => d * ei)
+    | "sqrt" => od.map (fun d => 2 * d) == A.dim
+    | "cbrt" => od.map (fun d => 3 * d) == A.dim
+    | _ => od == A.dim
+  let okKind : Bool := match form with
+    | "kmul" | "kdiv" | "keep" => kres == ka
+    | _ => kres == "Kind"
+  return ⟨[mo, if okDim && okKind then .ok else .prop s!"dim.{form}.oracle" "result type does not carry the exponents / kind dimensional analysis prescribes"],
+          [s!"dim:{form}"], A.dim != B.dim || form != "mul"⟩
+
+/-- C02: rustc's verdict on a probe function against the acceptance relation -/
+def handleAcc (t : TextTable) (form da ka db kb same obs : String) : Option LineResult := do
+  let e ← t.env
+  let f ← Form.ofString? form
+  let A : QTy := ⟨parseDims da, ← t.kindIdx ka⟩
+  let B : QTy := ⟨parseDims db, ← t.kindIdx kb⟩
+  let m := accepts e f A B (same == "1")
+  let o := obs == "1"
+  let mo : Outcome := if m == o then .ok else .diff s!"acc.{form}.model" s!"model={if m then "compiles" else "rejected"} rustc={if o then "compiles" else "rejected"}"
+  -- oracle: the property, stated directly
+  let differ := A != B
+  let isTemp := (A == e.tt && B == e.ti) || (A == e.ti && B == e.tt)
+  let orc : Outcome :=
+    match f with
+    | .add | .sub | .adda | .suba =>
+      if differ && !isTemp && o then .prop s!"acc.{form}.oracle" "additive arithmetic between different dimensions/kinds compiles"
+      else if A == e.tt && B == e.tt && o then .prop s!"acc.{form}.oracle" "two temperature points can be added/subtracted"
+      else .ok
+    | .rem | .rema | .eq | .lt | .pcmp | .ordmax | .letbind | .hypot | .atan2 =>
+      if differ && o then .prop s!"acc.{form}.oracle" "a program mixing different dimensions/kinds compiles" else .ok
+    | .newf | .getf => if same == "0" && o then .prop s!"acc.{form}.oracle" "a unit of another quantity is accepted" else .ok
+    | .from_ =>
+      if differ && o && !(A.dim == B.dim && (A.kind == 0 || B.kind == 0)) then .prop "acc.from.oracle" "a conversion between different dimensions or two non-default kinds compiles"
+      else .ok
+    | .sqrt => if o && !(A.dim.all (· % 2 == 0)) then .prop "acc.sqrt.oracle" "a root of non-divisible exponents compiles" else .ok
+    | .cbrt => if o && !(A.dim.all (· % 3 == 0)) then .prop "acc.cbrt.oracle" "a root of non-divisible exponents compiles" else .ok
+    | .neg => .ok
+  return ⟨[mo, orc], [s!"acc:{form}:{if o then "compiles" else "rejected"}"], differ⟩
+
 def handleLine (tbl : TextTable) (line : String) : Option LineResult :=
   match line.splitOn " " with
   | ["conv", vt, _base, _module, _unit, coef, consA, consS, pows, v, newObs, getObs, rtObs] => do
@@ -607,6 +693,8 @@ def handleLine (tbl : TextTable) (line : String) : Option LineResult :=
   | ["de", vt, _base, _module, fmt, _input, qres, vres] =>
     some ⟨[if qres == vres then .ok else .prop s!"de.{fmt}.oracle" "a quantity does not deserialize exactly as its storage type does (accepts/rejects/value)"],
           [s!"de:{vt}:{fmt}", if qres == "err" then "de:rejected" else "de:accepted"], true⟩
+  | ["dim", form, da, ka, db, kb, e, dres, kres] => handleDim tbl form da ka db kb e dres kres
+  | ["acc", form, da, ka, db, kb, same, obs, _label] => handleAcc tbl form da ka db kb same obs
   | ["b2", vt, form, _q, _u, a, b, qres, rawres] =>
     match numTy? vt with
     | some N => handleSame N vt form a b qres rawres
